@@ -14,6 +14,7 @@ PROPS = {
         ],
         "streams": [
             {"pkg": "pkg/dynamic/apply", "test": "TestVerifMerge", "n_quick": 40000, "n_thorough": 400000, "thorough_seeds": 3},
+            {"pkg": "pkg/controller/common", "test": "TestVerifApply", "n_quick": 20000, "n_thorough": 200000, "thorough_seeds": 3},
         ],
         "nontrivial": ["changed", "error", "listmap"],
         "rule": "triples (observed,lastApplied,desired) generated as related mutations of one random tree (depth<=3, conventional merge keys, nulls, kind changes); "
